@@ -126,8 +126,10 @@ fn format_via_uucore(
                     ))),
                 })?;
 
+            // `\c`: no further output at all, whatever arguments are left (just leaving
+            // this pass would start the next one with the same, unconsumed arguments).
             if control_flow == ControlFlow::Break(()) {
-                break;
+                return Ok(());
             }
         }
 
